@@ -572,7 +572,9 @@ int main(int argc, char** argv) {
     Sub s; s.name = "c16.math"; s.property = "C16"; s.instances = 6 * 4 * 2; s.n_quick = 2000; s.n_thorough = 40000; s.run = c16_math;
     s.gen = [](int inst) { static const int shapes[4] = {2, 3, 6, 9}; static const int from[6] = {0, 0, 1, 1, 2, 2}, to[6] = {1, 2, 0, 2, 0, 1};
       const int shape = shapes[inst % 4], via = (inst / 4) % 2, pair = inst / 8; const int nt = from[pair], t2 = to[pair]; const int narrow = ntinfo(nt).mant < ntinfo(t2).mant ? nt : t2; const int lim = narrow == 0 ? 100 : narrow == 1 ? 900 : 12000;
-      return rc::gen::map(gen_reals(shape, nt, -lim, lim, kNeg | kZero), [=](const std::vector<LD>& v) { Case c; c.i = {nt, t2, shape, via}; c.r = v; return c; }); };
+      return rc::gen::map(rc::gen::tuple(gen_reals(shape, nt, -lim, lim, kNeg | kZero), irange(0, 17)), [=](const std::tuple<std::vector<LD>, int>& t) { Case c; c.i = {nt, t2, shape, via}; c.r = std::get<0>(t);
+        if (std::get<1>(t) < 6 && narrow == t2) to_rounding_ties(c.r, nt, t2, std::get<1>(t));   // one third of the narrowing cases on / next to rounding ties of the target type (double rounding)
+        return c; }); };
     s.rule = "the four vector/tensor types x 6 ordered pairs of numeric types x {converting constructor, converting assignment}: every slot has the bits of static_cast<T2>(slot); non-trivial: inexact narrowing or widening";
     subs.push_back(s);
   }
